@@ -3,7 +3,6 @@ import json, os
 V = "/verif"
 PY = "/venv/bin/python"
 NA = {
- "C09": "applicable (DESIGN 5.1) but its check is still under construction at this commit; not claimed yet",
  "C02": "pure function of one cold fit's arguments (X, y, mixing, initialize, n); the 'random' start is an integer-seeded RandomState; no schedule, clock, fault or history can change any clause - needs an input generator + algebraic oracle (property-based testing), not simulation (DESIGN 6)",
  "C03": "linear-algebra identity between computational routes of one call; truncated solvers draw start vectors but the claim is numerical accuracy of one call, not a schedule/history statement (DESIGN 6)",
  "C04": "variational optimality over competitor subspaces; stateless, no environment input (DESIGN 6)",
@@ -48,6 +47,10 @@ checks = [
   "Ridge2FoldCV is fitted with the joblib backend replaced by a simulated one (tasks executed in seeded order, batched, on pickled copies like a worker process, or twice with the first result dropped; n_jobs in {None,1,2,3}) and with the ambient RNG that draws the folds owned by the simulator; cv_values_, alpha_, best_score_, coef_ and predict are compared with an explicit two-fold Tikhonov / cut-off least-squares model in plain numpy on the folds actually used, and identical configurations under different schedules must agree. The simulated surface is the task schedule and the RNG; a defect independent of both is found by the reference model, not by fault injection (stated in DESIGN 5.2).",
   TB + " Rank decisions use LAPACK singular values; traces with a singular value within a factor 3 of the documented cut are not judged.",
   "deterministic simulation (hostsim): simulated joblib schedule + owned RNG, explicit two-fold reference model", "DESIGN 5.2"),
+ check("C09", "c09",
+  "A simulated host process around every public estimator class and function: caller arrays live on a snapshotted heap (C, F, strided view in a canary-guarded buffer, read-only, read-only memmap) and are byte-compared after every event - including after KeyboardInterrupt/MemoryError injected at an arbitrary skmatter line and after stderr faults - so a modify-then-restore pattern is visible; get_params is compared after every fit under every clock; two- and three-step refit histories (other shape, with/without y, weighted/unweighted, reads in between, pickle restart) are compared attribute by attribute and read by read with a fresh twin that performs bit-identical arithmetic (same memory layout, same RNG/clock/ARPACK scripts); the same call is repeated under a different clock, ambient RNG, ARPACK start vectors, joblib schedule; fit returns self; fit_transform equals fit().transform().",
+  TB + " After an injected fault inside fit only heap integrity and parameter stability are demanded (object retired).",
+  "deterministic simulation (hostsim): snapshotted caller heap + crash-point/stderr/clock/RNG/ARPACK/joblib fault injection + history-free twin", "DESIGN 5.1"),
 ]
 claimed = {c["property_id"] for c in checks}
 extra = os.path.join(V, "tools", "manifest_extra.json")
